@@ -15,8 +15,15 @@ What is mirrored, function by function:
   `rate_from_tax_base`                                               → `bracketIndex`, …;
 * `MarginalAmountTaxScale.calc`, `SingleAmountTaxScale.calc`, `LinearAverageRateTaxScale.calc`
                                                                       → `calcMA`, `calcSA`, `calcLA`;
-* `add_tax_scale` / `combine_bracket`, `inverse`, `multiply_thresholds`, `multiply_rates`,
-  `scale_tax_scales`, `to_average`, `to_marginal`, `copy`, `helpers.combine_tax_scales`.
+* `add_tax_scale` / `combine_bracket` (also with its defaults: `combineBracketD`), `inverse`,
+  `multiply_thresholds`, `multiply_rates`, `scale_tax_scales`, `to_average`, `to_marginal`, `copy`,
+  `helpers.combine_tax_scales`;
+* `to_dict` → `toDict` (dict semantics: thresholds made equal by a rounding scaling collapse);
+* `SingleAmountTaxScale.calc` as written, with its guard bins / guard amounts and bases `±inf`
+  → `calcSAE` (`calcSA` is its restriction to finite bases: `Lemmas`, `calcSAE_fin`);
+* the descriptive attributes `name` / `option` / `unit` through every operation → `Meta`, `meta*`;
+* `commons.formulas.apply_thresholds`, `switch`, `commons.rates.average_rate`, `marginal_rate`
+  → `applyThresholds`, `switchSel`, `averageRate`, `marginalRateFD` (`nan` is `none`).
 
 `ε` is the perturbation `numpy.finfo(float64).eps` that the code adds to `factor`; it is a
 parameter here (`ε = 0` is the textbook reading).  `bisect_left/right`, `list.index`,
@@ -357,5 +364,156 @@ def toMarginal (a : AvgScale) : Except String Scale :=
       match (match a.top with | some r => some r | none => last) with
       | none => .error "UnboundLocalError: rate"
       | some r => .ok (addBracket m pt r)
+
+/-! ## `combine_bracket` called directly: defaults `threshold_low = 0`, `threshold_high = False` -/
+
+/-- `combine_bracket(rate, threshold_low=0, threshold_high=False)` with either argument left out -/
+def combineBracketD (s : Scale) (rate : Rat) (lo hi : Option Rat) : Scale :=
+  combineBracket s rate (match lo with | some l => l | none => 0) hi
+
+/-! ## `to_dict`: `{str(threshold): rate}` — a Python dict keeps the position of the first
+insertion of a key and the value of the last one (thresholds made equal by a rounding
+`multiply_thresholds` collapse) -/
+
+def dictSet : List (Rat × Rat) → Rat → Rat → List (Rat × Rat)
+  | [], k, v => [(k, v)]
+  | (k', v') :: rest, k, v => if k' = k then (k', v) :: rest else (k', v') :: dictSet rest k v
+
+def toDict (s : Scale) : List (Rat × Rat) := s.foldl (fun d b => dictSet d b.1 b.2) []
+
+/-! ## `SingleAmountTaxScale.calc` with its guards: the bins are `[-inf, *thresholds, inf]`, the
+amounts `[0, *amounts, 0]`; a base may be `±inf` -/
+
+inductive EBase where
+  | negInf
+  | fin (q : Rat)
+  | posInf
+deriving Repr, DecidableEq
+
+def EBase.ltB : EBase → EBase → Bool
+  | .negInf, .negInf => false
+  | .negInf, .fin _ => true
+  | .negInf, .posInf => true
+  | .fin _, .negInf => false
+  | .fin a, .fin b => decide (a < b)
+  | .fin _, .posInf => true
+  | .posInf, .negInf => false
+  | .posInf, .fin _ => false
+  | .posInf, .posInf => false
+
+def EBase.leB : EBase → EBase → Bool
+  | .negInf, .negInf => true
+  | .negInf, .fin _ => true
+  | .negInf, .posInf => true
+  | .fin _, .negInf => false
+  | .fin a, .fin b => decide (a ≤ b)
+  | .fin _, .posInf => true
+  | .posInf, .negInf => false
+  | .posInf, .fin _ => false
+  | .posInf, .posInf => true
+
+/-- `numpy.digitize(x, bins, right)` on increasing bins: the `i` with `bins[i-1] <= x < bins[i]`
+(`bins[i-1] < x <= bins[i]` when `right`), i.e. the number of bins `<= x` (`< x`) -/
+def digitizeE (right : Bool) (bins : List EBase) (x : EBase) : Nat :=
+  bins.countP (fun b => if right then b.ltB x else b.leB x)
+
+def guardedBins (s : Scale) : List EBase := EBase.negInf :: (s.map (fun b => EBase.fin b.1) ++ [EBase.posInf])
+def guardedAmounts (s : Scale) : List Rat := (0 : Rat) :: (s.map (·.2) ++ [0])
+
+/-- `guarded_amounts[numpy.digitize(tax_base, guarded_thresholds, right) - 1]` -/
+def calcSAE (right : Bool) (s : Scale) (x : EBase) : Except String Rat :=
+  pyIndex (guardedAmounts s) ((digitizeE right (guardedBins s) x : Int) - 1)
+
+/-! ## descriptive attributes `name`, `option`, `unit` of a scale and what each operation makes of them -/
+
+structure Meta where
+  name : String
+  option : Option String
+  unit : Option String
+deriving Repr, DecidableEq
+
+/-- Python's `a or b` for an optional string: `None` and `""` are falsy -/
+def strOr (a : Option String) (b : String) : String :=
+  match a with
+  | none => b
+  | some t => if t = "" then b else t
+
+/-- `TaxScaleLike.__init__(name, option, unit)`: `self.name = name or "Untitled TaxScale"` -/
+def metaInit (name option unit : Option String) : Meta := ⟨strOr name "Untitled TaxScale", option, unit⟩
+
+/-- `multiply_rates` / `multiply_thresholds`: in place `assert new_name is None; return self`, else
+`self.__class__(new_name or self.name, option=self.option, unit=self.unit)` -/
+def metaMultiply (m : Meta) (inplace : Bool) (newName : Option String) : Except String Meta :=
+  if inplace then
+    match newName with
+    | none => .ok m
+    | some _ => .error "AssertionError"
+  else .ok (metaInit (some (strOr newName m.name)) m.option m.unit)
+
+/-- `inverse()`: `name=str(self.name) + "'"` -/
+def metaInverse (m : Meta) : Meta := metaInit (some (m.name ++ "'")) m.option m.unit
+
+/-- `to_average()`, `to_marginal()`: `name=self.name, option=self.option, unit=self.unit` -/
+def metaConvert (m : Meta) : Meta := metaInit (some m.name) m.option m.unit
+
+/-- `copy()` (deep copy of `__dict__`) -/
+def metaCopy (m : Meta) : Meta := m
+
+/-- `scale_tax_scales(factor)` = `copy().multiply_thresholds(factor)` (in place on the copy) -/
+def metaScaleTaxScales (m : Meta) : Except String Meta := metaMultiply (metaCopy m) true none
+
+/-- `combine_tax_scales(node, combined)`: `name = next(iter(node or []), None)`; a new accumulator is
+`MarginalRateTaxScale(name=name)` -/
+def metaCombine (firstChild : Option String) (combined : Option Meta) : Option Meta :=
+  match firstChild with
+  | none => combined
+  | some n =>
+    match combined with
+    | some c => some c
+    | none => some (metaInit (some n) none none)
+
+/-! ## `commons.formulas` / `commons.rates`: the small pure functions used with scales in formulas -/
+
+/-- `numpy.select(condlist, choicelist)` for one element: the choice of the first condition
+that holds, 0 when none does -/
+def selectFirst : List (Bool × Rat) → Rat
+  | [] => 0
+  | (c, v) :: rest => if c then v else selectFirst rest
+
+/-- `apply_thresholds(input, thresholds, choices)` for one input -/
+def applyThresholds (x : Rat) (ths choices : List Rat) : Except String Rat :=
+  let conds := ths.map (fun t => decide (x ≤ t))
+  let conds := if conds.length + 1 = choices.length then conds ++ [true] else conds
+  if conds.length ≠ choices.length then .error "AssertionError"
+  else if conds.isEmpty then .error "ValueError: select with an empty condition list is not possible"
+  else .ok (selectFirst (conds.zip choices))
+
+/-- `switch(conditions, value_by_condition)` for one element -/
+def switchSel (c : Rat) (table : List (Rat × Rat)) : Except String Rat :=
+  if table.isEmpty then .error "AssertionError"
+  else .ok (selectFirst (table.map (fun kv => (decide (c = kv.1), kv.2))))
+
+/-- the two `numpy.where` of `average_rate` / `marginal_rate`: outside `[min(trim), max(trim)]`
+the value becomes `nan` (`none`) -/
+def trimRate (trim : Option (Rat × Rat)) (r : Rat) : Option Rat :=
+  match trim with
+  | none => some r
+  | some (a, b) => if r ≤ max a b ∧ min a b ≤ r then some r else none
+
+/-- `average_rate(target, varying, trim)` for one element (`varying ≠ 0`) -/
+def averageRate (trim : Option (Rat × Rat)) (target varying : Rat) : Except String (Option Rat) :=
+  if varying = 0 then .error "ZeroDivision" else .ok (trimRate trim (1 - target / varying))
+
+/-- `marginal_rate(target, varying, trim)`: one value per pair of consecutive elements -/
+def marginalRateFD (trim : Option (Rat × Rat)) : List Rat → List Rat → Except String (List (Option Rat))
+  | t0 :: t1 :: ts, v0 :: v1 :: vs =>
+    if v0 - v1 = 0 then .error "ZeroDivision"
+    else
+      match marginalRateFD trim (t1 :: ts) (v1 :: vs) with
+      | .error e => .error e
+      | .ok rest => .ok (trimRate trim (1 - (t0 - t1) / (v0 - v1)) :: rest)
+  | [_], [_] => .ok []
+  | [], [] => .ok []
+  | _, _ => .error "ValueError: operands could not be broadcast together"
 
 end OFCore.Sca
